@@ -268,7 +268,7 @@ Proof.
 Qed.
 
 Lemma data_part_inv ns content u : In u (data_part ns content) ->
-  (exists n v, u = Direct n v Allow /\ In (n, v) content) \/
+  (exists n v, u = Direct n v Allow /\ In (n, v) content /\ is_qualified n = true) \/
   (exists n, u = Prune n /\ is_rad n = false).
 Proof.
   unfold data_part. intros H. apply in_app_or in H. destruct H as [H|H];
@@ -417,7 +417,7 @@ Proof.
   assert (Hda_sig : last_on da SIGREFS = None).
   { destruct (last_on da SIGREFS) as [e|] eqn:El; [|reflexivity].
     apply last_on_Some_In in El. destruct El as [u [Hin [Hn He]]].
-    apply data_part_inv in Hin. destruct Hin as [[n [v [Eu Hc]]]|[n [Eu Hr]]]; subst u; cbn in Hn; subst n.
+    apply data_part_inv in Hin. destruct Hin as [[n [v [Eu [Hc _]]]]|[n [Eu Hr]]]; subst u; cbn in Hn; subst n.
     - apply (In_lookup) in Hc.
       + congruence.
       + (* content need not be sorted: use the entry directly *)
@@ -463,6 +463,49 @@ Proof.
       destruct (is_rad n) eqn:Hr; [reflexivity|]. exfalso.
       pose proof (data_part_prune ns content n v Hl0 Hr Em) as Hin.
       apply last_on_In in Hin. cbn [upd_name] in Hin. fold da in Hin. congruence.
+Qed.
+
+(* what a passed validation says about the advertised data itself *)
+Lemma validate_special_facts c r i sg ns content :
+  validate (special_updates c r i sg ++ data_part ns content) content = true ->
+  (exists t, sg = Some t) /\
+  (forall x, i = Some x -> lookup RAD_ID content <> None) /\
+  lookup SIGREFS content = None /\
+  (forall n v, lookup n content = Some v -> is_qualified n = true).
+Proof.
+  intros Hval. set (sp := special_updates c r i sg) in *. set (da := data_part ns content) in *.
+  destruct (validate_spec _ _ Hval) as [[s0 Hs] [Hcs E1]].
+  assert (Hmem : forall k, lookup k (mem_of (sp ++ da)) =
+            match last_on da k with Some e => e | None =>
+              match last_on sp k with Some e => e | None => None end end).
+  { intros k. rewrite mem_of_lookup, last_on_app. destruct (last_on da k); reflexivity. }
+  assert (Hda : forall k, lookup k content = None -> is_rad k = true -> last_on da k = None).
+  { intros k Hk Hr. destruct (last_on da k) as [e|] eqn:El; [|reflexivity].
+    apply last_on_Some_In in El. destruct El as [u [Hin [Hn He]]].
+    apply data_part_inv in Hin. destruct Hin as [[n [v [Eu [Hc _]]]]|[n [Eu Hr']]]; subst u; cbn in Hn; subst n.
+    - exfalso. assert (Hk' : lookup k content <> None).
+      { apply lookup_in_keys. apply in_map_iff. exists (k, v). auto. }
+      congruence.
+    - congruence. }
+  split; [|split; [|split; [exact Hcs|]]].
+  - rewrite Hmem, (Hda SIGREFS Hcs eq_refl) in Hs.
+    unfold sp, special_updates in Hs. destruct sg as [t|]; [exists t; reflexivity|].
+    exfalso. destruct i; cbn in Hs; discriminate.
+  - intros x Ei Hnone. subst i.
+    pose proof (E1 RAD_ID) as E. rewrite Hmem, (Hda RAD_ID Hnone eq_refl), Hnone in E.
+    unfold sp, special_updates in E. destruct sg; cbn in E; specialize (E ltac:(discriminate)); discriminate.
+  - intros n v Hc.
+    assert (Hn : n <> SIGREFS) by (intros ->; congruence).
+    pose proof (E1 n Hn) as E. rewrite Hc, mem_of_lookup in E.
+    destruct (last_on (sp ++ da) n) as [e|] eqn:El; [|discriminate].
+    apply last_on_Some_In in El. destruct El as [u [Hin [Hnm He]]].
+    apply in_app_or in Hin. destruct Hin as [Hin|Hin].
+    + unfold sp, special_updates in Hin.
+      destruct i; destruct sg; cbn in Hin;
+        repeat (destruct Hin as [Hin|Hin]; [subst u; cbn in Hnm; subst n; reflexivity|]); contradiction.
+    + apply data_part_inv in Hin. destruct Hin as [[n' [v' [Eu [_ Hq]]]]|[n' [Eu _]]]; subst u; cbn in Hnm, He.
+      * subst n'. exact Hq.
+      * subst e. discriminate.
 Qed.
 
 End WithOracles.
@@ -1092,14 +1135,48 @@ Proof.
         split; [reflexivity | discriminate].
 Qed.
 
+Lemma planned_shape c L S r t :
+  (announced c S r = Some t \/ (announced c S r = None /\ sigrefs_of L r = Some t)) ->
+  sp_shape (pol c r) t (special_updates c r (advertised_id c S r) (announced c S r)).
+Proof.
+  intros [H|[H _]]; rewrite H; [apply special_shape | apply special_shape_none].
+Qed.
+
+(* the checks a namespace has passed when the fetch changes it *)
+Definition accepted (c : cfg) (L S : store) (r : nid) (t : oid) (o : sigobj) : Prop :=
+  is_blocked c r = false /\
+  announced c S r = Some t /\
+  lookup t U = Some o /\ so_sig_ok o = true /\ so_root_ok o = true /\
+  (forall x, advertised_id c S r = Some x -> lookup RAD_ID (so_content o) <> None) /\
+  lookup SIGREFS (so_content o) = None /\
+  (forall n v, lookup n (so_content o) = Some v -> is_qualified n = true) /\
+  (forall a, sigrefs_of L r = Some a -> a = t \/ anc a t = true).
+
+Lemma planned_applied c L S r us ns' okr :
+  planned c L S r us ->
+  apply_ns anc (ns_of L r) us = (ns', okr) ->
+  (okr = false -> ns' = ns_of L r) /\
+  (okr = true -> exists t o, accepted c L S r t o /\ ns_matches (ns_of L r) ns' t (so_content o)).
+Proof.
+  intros [t [o [HU [Hv [Hb [Hsrc [Eus [Hval Hanc]]]]]]]] Eap. subst us.
+  assert (Hanc' : forall a, lookup SIGREFS (ns_of L r) = Some a -> a = t \/ anc a t = true).
+  { intros a Ha. apply (Hanc a Ha). }
+  destruct (ns_match anc (ns_of L r) (so_content o) (pol c r) t _ (planned_shape c L S r t Hsrc) Hval Hanc')
+    as [ns2 [ok2 [Eap2 [Hko Hok]]]].
+  rewrite Eap in Eap2. inversion Eap2; subst ns2 ok2.
+  split; [exact Hko|]. intros Eok. exists t, o. split; [|apply Hok; exact Eok].
+  destruct (validate_special_facts _ _ _ _ _ _ Hval) as [[t' Ean] [Hid [Hcs Hq]]].
+  unfold so_valid in Hv. apply andb_true_iff in Hv. destruct Hv as [Hv1 Hv2].
+  assert (Et : announced c S r = Some t).
+  { destruct Hsrc as [H|[H _]]; [exact H | congruence]. }
+  unfold accepted. repeat split; try assumption.
+Qed.
+
 (* the effect of a whole run on one namespace *)
 Lemma run_namespace c L S res L' r : sorted S ->
   run anc U c L S = (res, L') ->
   ns_of L' r = ns_of L r \/
-  exists t o,
-    lookup t U = Some o /\ so_valid o = true /\ is_blocked c r = false /\
-    ns_matches (ns_of L r) (ns_of L' r) t (so_content o) /\
-    (forall a, sigrefs_of L r = Some a -> a = t \/ anc a t = true).
+  exists t o, accepted c L S r t o /\ ns_matches (ns_of L r) (ns_of L' r) t (so_content o).
 Proof.
   intros HS. unfold run.
   destruct (plan anc U c L S) as [e|[tips valid]] eqn:Ep.
@@ -1110,16 +1187,9 @@ Proof.
   destruct (plan_spec c L S tips valid HS Ep) as [Hts [Hpl _]].
   destruct (apply_all_spec tips Hts _ _ _ Ea r) as [[Hsame _]|[us [ns' [okr [Hl [Eap [Ens _]]]]]]].
   { left. exact Hsame. }
-  destruct (Hpl r us Hl) as [t [o [sp [HU [Hv [Hb [Hsh [Eus [Hval Hanc]]]]]]]]].
-  subst us.
-  assert (Hanc' : forall a, lookup SIGREFS (ns_of L r) = Some a -> a = t \/ anc a t = true).
-  { intros a Ha. apply (Hanc a Ha). }
-  destruct (ns_match anc (ns_of L r) (so_content o) (pol c r) t sp Hsh Hval Hanc')
-    as [ns2 [ok2 [Eap2 [Hko Hok]]]].
-  rewrite Eap in Eap2. inversion Eap2; subst ns2 ok2.
+  destruct (planned_applied c L S r us ns' okr (Hpl r us Hl) Eap) as [Hko Hok].
   destruct okr.
-  - right. exists t, o. rewrite Ens. split; [exact HU|]. split; [exact Hv|]. split; [exact Hb|].
-    split; [apply Hok; reflexivity | exact Hanc'].
+  - right. rewrite Ens. apply Hok. reflexivity.
   - left. rewrite Ens. apply Hko. reflexivity.
 Qed.
 
@@ -1144,10 +1214,21 @@ Lemma touched_namespaces_match c L S res L' r : sorted S ->
        (is_rad n = true /\ lookup n (so_content o) = None /\ lookup n (ns_of L r) = Some v)).
 Proof.
   intros HS Hrun Hch.
-  destruct (run_namespace anc U c L S res L' r HS Hrun) as [Hsame|[t [o [HU [Hv [Hb [[M1 [M2 M3]] _]]]]]]].
+  destruct (run_namespace anc U c L S res L' r HS Hrun) as [Hsame|[t [o [Hacc [M1 [M2 M3]]]]]].
   { contradiction. }
-  exists t, o. unfold so_valid in Hv. apply andb_true_iff in Hv. destruct Hv as [Hv1 Hv2].
-  repeat split; assumption.
+  destruct Hacc as [_ [_ [HU [Hv1 [Hv2 _]]]]].
+  exists t, o. repeat split; assumption.
+Qed.
+
+Lemma changed_namespace_accepted c L S res L' r : sorted S ->
+  run anc U c L S = (res, L') ->
+  ns_of L' r <> ns_of L r ->
+  exists t o, accepted anc U c L S r t o /\ sigrefs_of L' r = Some t.
+Proof.
+  intros HS Hrun Hch.
+  destruct (run_namespace anc U c L S res L' r HS Hrun) as [Hsame|[t [o [Hacc [M1 _]]]]].
+  { contradiction. }
+  exists t, o. split; assumption.
 Qed.
 
 (* when no stale refs/rad/* reference is in the way the match is exact *)
@@ -1174,7 +1255,7 @@ Lemma blocked_namespace_untouched c L S res L' r : sorted S ->
   run anc U c L S = (res, L') -> is_blocked c r = true -> ns_of L' r = ns_of L r.
 Proof.
   intros HS Hrun Hb.
-  destruct (run_namespace anc U c L S res L' r HS Hrun) as [Hsame|[t [o [_ [_ [Hb' _]]]]]]; [exact Hsame | congruence].
+  destruct (run_namespace anc U c L S res L' r HS Hrun) as [Hsame|[t [o [[Hb' _] _]]]]; [exact Hsame | congruence].
 Qed.
 
 Lemma sigrefs_monotone c L S res L' r a : sorted S ->
@@ -1183,9 +1264,9 @@ Lemma sigrefs_monotone c L S res L' r a : sorted S ->
   exists b, sigrefs_of L' r = Some b /\ (a = b \/ anc a b = true).
 Proof.
   intros HS Hrun Ha.
-  destruct (run_namespace anc U c L S res L' r HS Hrun) as [Hsame|[t [o [_ [_ [_ [[M1 _] Hanc]]]]]]].
+  destruct (run_namespace anc U c L S res L' r HS Hrun) as [Hsame|[t [o [Hacc [M1 _]]]]].
   - exists a. unfold sigrefs_of. rewrite Hsame. split; [exact Ha | left; reflexivity].
-  - exists t. split; [exact M1 | apply Hanc; exact Ha].
+  - exists t. split; [exact M1|]. destruct Hacc as [_ [_ [_ [_ [_ [_ [_ [_ Hanc]]]]]]]]. apply Hanc; exact Ha.
 Qed.
 
 Lemma loop_step_err c L st x e :
@@ -1250,14 +1331,61 @@ Proof.
   - destruct (apply_all_spec anc tips Hts _ _ _ Ea d) as [[_ Hnone]|[us' [ns' [okr [Hl' [Eap [Ens Hokr]]]]]]].
     { rewrite (Hnone eq_refl) in Hl. discriminate. }
     rewrite Hl in Hl'. inversion Hl'; subst us'.
-    destruct (Hpl d us Hl) as [t [o [sp [HU [Hv [Hb [Hsh [Eus [Hval Hanc]]]]]]]]]. subst us.
-    assert (Hanc' : forall a, lookup SIGREFS (ns_of L d) = Some a -> a = t \/ anc a t = true).
-    { intros a Ha. apply (Hanc a Ha). }
-    destruct (ns_match anc (ns_of L d) (so_content o) (pol c d) t sp Hsh Hval Hanc')
-      as [ns2 [ok2 [Eap2 [_ Hok]]]].
-    rewrite Eap in Eap2. inversion Eap2; subst ns2 ok2.
-    rewrite (Hokr eq_refl) in Hok. destruct (Hok eq_refl) as [M1 _].
+    destruct (planned_applied anc U c L S d us ns' okr (Hpl d us Hl) Eap) as [_ Hok].
+    destruct (Hok (Hokr eq_refl)) as [t [o [_ [M1 _]]]].
     unfold sigrefs_of. rewrite Ens, M1. discriminate.
+Qed.
+
+Definition check_fails (c : cfg) (L S : store) (r : nid) : Prop :=
+  is_blocked c r = true \/
+  announced c S r = None \/
+  exists t, announced c S r = Some t /\
+    (lookup t U = None \/
+     exists o, lookup t U = Some o /\
+       (so_sig_ok o = false \/ so_root_ok o = false \/
+        (exists x, advertised_id c S r = Some x /\ lookup RAD_ID (so_content o) = None) \/
+        lookup SIGREFS (so_content o) <> None \/
+        (exists n v, lookup n (so_content o) = Some v /\ is_qualified n = false) \/
+        (exists a, sigrefs_of L r = Some a /\ a <> t /\ anc a t = false))).
+
+Lemma failing_namespace_untouched c L S res L' r : sorted S ->
+  run anc U c L S = (res, L') ->
+  check_fails c L S r ->
+  ns_of L' r = ns_of L r.
+Proof.
+  intros HS Hrun Hf.
+  assert (Hdec : {ns_of L' r = ns_of L r} + {ns_of L' r <> ns_of L r}).
+  { apply list_eq_dec. intros [a1 b1] [a2 b2].
+    destruct (N.eq_dec a1 a2); destruct (N.eq_dec b1 b2); subst; auto; right; congruence. }
+  destruct Hdec as [E|NE]; [exact E|]. exfalso.
+  destruct (changed_namespace_accepted c L S res L' r HS Hrun NE) as [t [o [Hacc _]]].
+  destruct Hacc as [Hb [Han [HU [Hs1 [Hs2 [Hid [Hcs [Hq Hanc]]]]]]]].
+  destruct Hf as [H|[H|[t' [Han' H]]]]; [congruence | congruence|].
+  rewrite Han in Han'. inversion Han'; subst t'.
+  destruct H as [H|[o' [HU' H]]]; [congruence|].
+  rewrite HU in HU'. inversion HU'; subst o'.
+  destruct H as [H|[H|[[x [Hx Hn]]|[H|[[n [v [Hc Hnq]]]|[a [Ha [Hne Hna]]]]]]]]; try congruence.
+  - apply (Hid x Hx Hn).
+  - rewrite (Hq n v Hc) in Hnq. discriminate.
+  - destruct (Hanc a Ha); congruence.
+Qed.
+
+Lemma valid_delegates_sound c L S tips valid : sorted S ->
+  plan anc U c L S = inr (tips, valid) ->
+  NoDup (keys valid) /\
+  forall d, In d (keys valid) ->
+    is_delegate c d = true /\
+    (sigrefs_of L d <> None \/
+     exists t o, announced c S d = Some t /\ lookup t U = Some o /\
+                 so_sig_ok o = true /\ so_root_ok o = true).
+Proof.
+  intros HS Hp. destruct (plan_spec anc U c L S tips valid HS Hp) as [_ [Hpl [Hvs Hvd]]].
+  split; [apply sorted_NoDup_keys; exact Hvs|].
+  intros d Hd. destruct (Hvd d Hd) as [Hdel [Hloc|[us Hl]]]; split; try exact Hdel; [left; exact Hloc|].
+  right. destruct (Hpl d us Hl) as [t [o [HU [Hv [Hb [Hsrc [Eus [Hval _]]]]]]]]. subst us.
+  destruct (validate_special_facts _ _ _ _ _ _ Hval) as [[t' Ean] _].
+  exists t, o. unfold so_valid in Hv. apply andb_true_iff in Hv. destruct Hv as [Hv1 Hv2].
+  repeat split; try assumption. destruct Hsrc as [H|[H _]]; [exact H | congruence].
 Qed.
 
 End Statements.
